@@ -8,7 +8,7 @@ if ! git diff --quiet; then echo "repo working tree is dirty"; exit 2; fi
 git apply "$D/patch.diff" || { echo "patch does not apply"; exit 2; }
 for id in "$@"; do
   echo "=== $id with $(basename $D)"
-  (cd /verif && bin/check $id --tier quick 2>&1 | grep -E "VIOLATION|signature:|what:|HELD|INCONCLUSIVE|HARNESS|KNOWN" | cut -c1-400 | head -12; )
+  (cd /verif && bin/check $id --tier quick 2>&1 | grep -E "VIOLATION|signature:|what:|HELD|INCONCLUSIVE|HARNESS" | cut -c1-400 | head -14; )
 done
 git -C /repo checkout -- .
 # evidence files were rewritten by the mutant run: restore the committed ones
